@@ -227,6 +227,9 @@ TECMP::CaptureModulePayload::CaptureModulePayload()
 TECMP::CaptureModulePayload::CaptureModulePayload(const uint8_t* data, const size_t size)
     : Payload(TECMP::PayloadType::cmStatMsg, data, size)
 {
+    // Not a capture module status unless it holds the whole status header
+    if (size < sizeof(Header))
+        setType(TECMP::PayloadType::invalid);
 }
 uint8_t TECMP::CaptureModulePayload::Header::getVendorId() const
 {
